@@ -2040,7 +2040,9 @@ class unyt_array(np.ndarray):
                 out_arr = ret_class(out_arr, unit, bypass_validation=True)
         if out is not None:
             if mul != 1:
-                multiply(out, mul, out=out)
+                # scale the raw buffer: going through ``out`` would dispatch on
+                # its stale units and can re-enter this branch without end
+                multiply(out_func, mul, out=out_func)
                 if np.shares_memory(out_arr, out):
                     mul = 1
             if isinstance(out, unyt_array):
